@@ -1,0 +1,72 @@
+// Verification-only instrumentation (cargo feature `verif_hooks`, off by
+// default). Nothing in here is compiled into a normal build.
+//
+// The only seam: the order in which a hash map hands out its entries when the
+// builder drains it to schedule work. With the feature on, a harness can force
+// that order to any permutation it chooses, so that "every iteration order of
+// the hash map" becomes an enumerable choice instead of a property of the
+// process-wide hasher seed. Order-preserving containers are left untouched:
+// the hook can therefore never produce an order the real program cannot.
+
+use std::cell::RefCell;
+use std::collections::BTreeMap;
+use std::collections::HashMap;
+use std::hash::Hash;
+
+use indexmap::IndexMap;
+
+type OrderFn = Box<dyn FnMut(&'static str, usize) -> Vec<usize>>;
+
+thread_local! {
+  static ORDER_CB: RefCell<Option<OrderFn>> = const { RefCell::new(None) };
+}
+
+/// Installs (or clears) the callback deciding drain orders on this thread.
+/// The callback gets a site label and the number of entries `n` and returns a
+/// permutation of `0..n` over the entries sorted by key.
+pub fn set_drain_order_callback(cb: Option<OrderFn>) {
+  ORDER_CB.with(|c| *c.borrow_mut() = cb);
+}
+
+pub trait VerifDrainOrder {
+  fn verif_force_drain_order(&mut self, site: &'static str);
+}
+
+impl<K: Ord + Hash + Eq + Clone, V> VerifDrainOrder for HashMap<K, V> {
+  fn verif_force_drain_order(&mut self, site: &'static str) {
+    let n = self.len();
+    if n < 2 {
+      return;
+    }
+    let perm = ORDER_CB.with(|c| c.borrow_mut().as_mut().map(|cb| cb(site, n)));
+    let Some(perm) = perm else {
+      return;
+    };
+    assert_eq!(perm.len(), n, "verif hook: bad permutation length");
+    let mut sorted: Vec<K> = self.keys().cloned().collect();
+    sorted.sort();
+    let wanted: Vec<K> = perm.iter().map(|i| sorted[*i].clone()).collect();
+    // Rebuild the map under fresh hasher keys until its natural iteration
+    // order is the wanted one; every order is reachable this way because
+    // that is exactly how the unhooked program picks one.
+    let mut entries: Vec<(K, V)> = std::mem::take(self).into_iter().collect();
+    for _ in 0..200_000 {
+      let mut candidate: HashMap<K, V> = HashMap::with_capacity(n);
+      candidate.extend(entries.drain(..));
+      if candidate.keys().zip(wanted.iter()).all(|(a, b)| a == b) {
+        *self = candidate;
+        return;
+      }
+      entries = candidate.into_iter().collect();
+    }
+    panic!("verif hook: could not realise the requested drain order");
+  }
+}
+
+impl<K, V> VerifDrainOrder for IndexMap<K, V> {
+  fn verif_force_drain_order(&mut self, _site: &'static str) {}
+}
+
+impl<K, V> VerifDrainOrder for BTreeMap<K, V> {
+  fn verif_force_drain_order(&mut self, _site: &'static str) {}
+}
